@@ -12,7 +12,7 @@ PROP = 'C08'
 MANIFEST = dict(
     technique='TLA+ model (IdAlloc) checked by TLC; every model transition replayed on real VMF objects; implementation records validated by TLC (IdAllocTrace)',
     category='model_checking',
-    text='TLC exhausts the ID allocation design (3 object slots x 2 maps x desired IDs -1..3; fixup tables over 3 variables) with uniqueness, positivity, hint and no-leak invariants; every one of the ~65k transitions is executed on real Entity/Solid/Side/VisGroup/EntityGroup/EntityFixup objects and each logged step must be exactly the step IdAllocOps takes from the logged pre-state; seeded random histories, parsed documents with colliding IDs, node IDs and fixup tables beyond the bounds are validated the same way.',
+    text='TLC exhausts the ID allocation design (3 object slots x 2 maps x desired IDs -1..3; fixup tables over 3 variables) with uniqueness, positivity, hint and no-leak invariants; every one of the ~65k transitions is executed on real Entity/Solid/Side/VisGroup/EntityGroup/EntityFixup objects and each logged step must be exactly the step IdAllocOps takes from the logged pre-state; seeded random histories, parsed documents with colliding IDs, node IDs, instance collapses and fixup tables beyond the bounds are validated the same way. A second model (FixupMap) covers EntityFixup as a whole mapping (spellings with/without $, case folding, first spelling kept, values, replaceNN indexes, export order); its 13k transitions are replayed too.',
     design_ref='4 (C08)',
     note='Trusts TLC, the projection (IDMan._used/search_pos, .id attributes) and CPython reference counting for object destruction. Pure-Python tree only.',
 )
